@@ -291,7 +291,7 @@ func calc(a : int, b : int) -> int
     scale(b) + k
 }
 func main(n : int) -> int { let r = calc(%d, %d); print(r); r }
-""" % (a, b), dict(shape=True, expect_out="%d\r\n%d\r\n" % (k, 2 * b + k), expect_res="I%d" % (2 * b + k))))
+""" % (a, b), dict(shape=True, capture=True, expect_out="%d\r\n%d\r\n" % (k, 2 * b + k), expect_res="I%d" % (2 * b + k))))
     x, y = rng.range(2, 9), rng.range(2, 9)
     out.append(("shape_pipe_tuple_local", """
 func add(a : int, b : int) -> int { a + b }
@@ -334,7 +334,7 @@ func main(n : int) -> int {
     print(f(5));
     f(0)
 }
-""" % (n1, n2), dict(shape=True, expect_out="%d\r\n%d\r\n" % (5 + n1, 5 + n2), expect_res="I%d" % n2)))
+""" % (n1, n2), dict(shape=True, capture=True, expect_out="%d\r\n%d\r\n" % (5 + n1, 5 + n2), expect_res="I%d" % n2)))
     out.append(("shape_not_tail", """
 func odd_steps(n : int) -> bool { n == 0 ? false : !odd_steps(n - 1) }
 func main(n : int) -> int { print(odd_steps(0) ? 1 : 0); print(odd_steps(1) ? 1 : 0); print(odd_steps(2) ? 1 : 0); print(odd_steps(7) ? 1 : 0); 0 }
@@ -352,7 +352,7 @@ func outer2(a : int) -> (int) -> (int) -> int {
     }
 }
 func main(n : int) -> int { print(outer(%d)(%d)(%d)); print(outer2(%d)(%d)(%d)); 0 }
-""" % (c1, c2, c3, c3, c2, c1), dict(shape=True, expect_out="%d\r\n%d\r\n" % (c1 * 100 + c2 * 10 + c3, c3 * 100 + c2 * 10 + c1), expect_res="I0")))
+""" % (c1, c2, c3, c3, c2, c1), dict(shape=True, capture=True, expect_out="%d\r\n%d\r\n" % (c1 * 100 + c2 * 10 + c3, c3 * 100 + c2 * 10 + c1), expect_res="I0")))
     i0, inc = rng.range(1, 9), rng.range(2, 9)
     out.append(("shape_prefix_capture", """
 func counter(i : int, inc : int) -> () -> int {
@@ -360,7 +360,7 @@ func counter(i : int, inc : int) -> () -> int {
     let func step() -> int { cur = cur + inc; cur + i }
 }
 func main(n : int) -> int { let c = counter(%d, %d); print(c()); print(c()); c() }
-""" % (i0, inc), dict(shape=True, expect_out="%d\r\n%d\r\n" % (2 * i0 + inc, 2 * i0 + 2 * inc), expect_res="I%d" % (2 * i0 + 3 * inc))))
+""" % (i0, inc), dict(shape=True, capture=True, expect_out="%d\r\n%d\r\n" % (2 * i0 + inc, 2 * i0 + 2 * inc), expect_res="I%d" % (2 * i0 + 3 * inc))))
     p, q, xx, yy = rng.range(1, 9), rng.range(1, 9), rng.range(1, 9), rng.range(1, 9)
     out.append(("shape_rethrow_env", """
 func thrower(p : int, q : int) -> () -> int { let func t() -> int { (p + q) / (p - p) } }
@@ -368,7 +368,7 @@ func catcher(x : int, y : int) -> () -> int {
     let func c() -> int { let t = thrower(%d, %d); t() + x } catch (division_by_zero) { x * 1000 + y }
 }
 func main(n : int) -> int { let c = catcher(%d, %d); print(c()); 0 }
-""" % (p, q, xx, yy), dict(shape=True, expect_out="%d\r\n" % (xx * 1000 + yy), expect_res="I0")))
+""" % (p, q, xx, yy), dict(shape=True, capture=True, expect_out="%d\r\n" % (xx * 1000 + yy), expect_res="I0")))
     out.append(("shape_match_enum_values", """
 enum S { TWO = S::THREE - S::ONE, THREE = 3, ONE = 1 }
 enum A { X = Z::K * 2 + 1, Y }
@@ -601,7 +601,90 @@ func k(x : int, y : int, z : int) -> int { let k = let func (a : int) -> int { a
 func m(x : int, acc : int) -> int { x == 0 ? acc : { let m = g3; m(x, acc, %d) } }
 func w(x : int) -> int { x > 100 ? x : { func w(a : int, b : int) -> int { a + b }; w(x, 1000) } }
 func main(n : int) -> int { print(f(%d)); print(h(%d)); print(k(1, 2, %d)); print(m(2, 3)); print(w(%d)); 0 }
-""" % (b, c, b, c, a, a, a, a), dict(shape=True, expect_out=P(a * 100 + b * 10 + c) + P(a * 7 + b) + P(3 + a + 1) + P(230 + c) + P(a + 1000), expect_res="I0")))
+""" % (b, c, b, c, a, a, a, a), dict(shape=True, capture=True, expect_out=P(a * 100 + b * 10 + c) + P(a * 7 + b) + P(3 + a + 1) + P(230 + c) + P(a + 1000), expect_res="I0")))
+    return out
+
+def capture_family(rng):
+    """function values created inside loops: each must see the loop variable (and the body's locals) of ITS iteration, whatever
+    else it captures and in whichever order the captured names first occur in its body"""
+    out = []
+    P = lambda v: "%d\r\n" % v
+    k, k2, k3 = rng.range(2, 9), rng.range(2, 9), rng.range(2, 9)
+    xs = [rng.range(1, 9) for _ in range(3)]
+    ys = [rng.range(1, 9) for _ in range(2)]
+    exp = []
+    exp += [k * x + 1000 * (i + 1) for i, x in enumerate(xs)]                 # scaled: k, x, tag
+    exp += [1000 * (i + 1) - x + k for i, x in enumerate(xs)]                 # order: tag, x, k
+    exp += [x * 10 + y + k2 * 100 for x in ys for y in ys]                    # nested loops
+    exp += [x * k3 + y for x in xs for y in xs if x < y]                      # comprehension
+    exp += [i * k + j for i in range(2, 5) for j in range(i, 5)][:4]          # range loops
+    npair = len([1 for x in xs for y in xs if x < y])
+    calls = "".join("    print(a[%d]());\n" % i for i in range(3)) + "".join("    print(o[%d]());\n" % i for i in range(3)) + \
+            "".join("    print(b[%d]());\n" % i for i in range(4)) + "".join("    print(c[%d]());\n" % i for i in range(npair)) + \
+            "".join("    print(r[%d]());\n" % i for i in range(4))
+    out.append(("shape_loop_closures", """
+func zero() -> int { 0 }
+func scaled(k : int, xs[D] : int) -> [_] : () -> int
+{
+    var fs = [ zero, zero, zero ] : () -> int;
+    var i = 0;
+    for (x in xs) {
+        let tag = 1000 * (i + 1);
+        fs[i] = let func () -> int { k * x + tag };
+        i = i + 1
+    };
+    fs
+}
+func order(k : int, xs[D] : int) -> [_] : () -> int
+{
+    var fs = [ zero, zero, zero ] : () -> int;
+    var i = 0;
+    for (x in xs) {
+        let tag = 1000 * (i + 1);
+        fs[i] = let func () -> int { tag - x + k };
+        i = i + 1
+    };
+    fs
+}
+func nested(k : int, xs[D] : int, ys[E] : int) -> [_] : () -> int
+{
+    var fs = [ zero, zero, zero, zero ] : () -> int;
+    var i = 0;
+    for (x in xs) {
+        for (y in ys) {
+            let m = x * 10;
+            fs[i] = let func () -> int { m + y + k * 100 };
+            i = i + 1
+        }
+    };
+    fs
+}
+func compr(k : int, xs[D] : int) -> [_] : () -> int
+{
+    [ let func () -> int { x * k + y } | x in xs; y in xs; x < y ] : () -> int
+}
+func ranged(k : int) -> [_] : () -> int
+{
+    var fs = [ zero, zero, zero, zero ] : () -> int;
+    var n = 0;
+    for (i in [ 2 .. 4 ]) {
+        for (j in [ i .. 4 ]) {
+            if (n < 4) { fs[n] = let func () -> int { i * k + j }; n = n + 1 } else { n = n + 0 }
+        }
+    };
+    fs
+}
+func main(n : int) -> int {
+    let xs = [ %d, %d, %d ] : int;
+    let ys = [ %d, %d ] : int;
+    let a = scaled(%d, xs);
+    let o = order(%d, xs);
+    let b = nested(%d, ys, ys);
+    let c = compr(%d, xs);
+    let r = ranged(%d);
+%s    0
+}
+""" % (xs[0], xs[1], xs[2], ys[0], ys[1], k, k, k2, k3, k, calls), dict(shape=True, capture=True, expect_out="".join(P(v) for v in exp), expect_res="I0")))
     return out
 
 def arith_family(rng):
@@ -698,7 +781,7 @@ func main(n : int) -> int {
 }
 """ % (a, b, a, a), dict(api=True))]
 
-FAMILIES = [tail_family, deeprec_family, alloc_family, exc_family, idx_family, api_family, shapes_family, builtins_family, arith_family, denote_family, effects_family]
+FAMILIES = [tail_family, deeprec_family, alloc_family, exc_family, idx_family, api_family, shapes_family, builtins_family, arith_family, denote_family, effects_family, capture_family]
 
 def generate(seed, rounds=1):
     rng = Rng(seed)
